@@ -17,7 +17,7 @@ MEM_LIMIT = 24 * 1024 ** 3
 
 class Harness:
     def __init__(self, name, mod, tier="quick", functions=(), bounds="", role="", stubs=(),
-                 assumes=(), playback=None, native=None, expect_fail=()):
+                 assumes=(), playback=None, native=None, expect_fail=(), pbfile=None):
         self.name = name
         self.mod = mod                # module path inside the crate, e.g. "verif_kani::c18"
         self.tier = tier              # quick harnesses also run in thorough
@@ -31,6 +31,7 @@ class Harness:
         # the stub over-approximates the real function)
         self.playback = (not stubs) if playback is None else playback
         self.expect_fail = list(expect_fail)   # descriptions of panics that MUST be reachable
+        self.pbfile = pbfile or mod.split("::")[-1]
         self.native = native          # name of a native confirmer (replay crate) when playback is impossible
 
     @property
@@ -259,8 +260,7 @@ def run_playback_tests(h, tests, log=None):
     """Compile the generated unit tests into the harness module (cfg(kani)+cfg(test)) and run them natively."""
     tests = dedupe_tests(tests)
     res = {"dev_failed": [], "release_failed": [], "playback_errors": []}
-    modfile = h.mod.split("::")[-1]
-    inc = os.path.join(WORK, "playback", modfile + ".rs")
+    inc = os.path.join(WORK, "playback", h.pbfile + ".rs")
     reset_playback_includes()
     ensure_playback_includes()
     with open(inc, "w") as f:
